@@ -141,6 +141,11 @@ class RecWorld(ConnWorld):
         auth = isinstance(err, (InvalidAuthAPIError, InvalidEncryptionKeyAPIError, RequiresEncryptionAPIError))
         self.calls.append((self.loop.time(), "on_connect_error", type(err).__name__))
         self.note("on_connect_error", type(err).__name__)
+        c = self.client._connection
+        if c is not None and c.is_connected and self.in_session and not self.restart_over_live_session:
+            # "reports each failed attempt": while the session the manager itself established is alive there is no attempt that could
+            # have failed (the restart-over-a-live-session histories of finding F10 are the known exception)
+            self.viol.append(f"C18:error-while-connected: on_connect_error({type(err).__name__}: {str(err)[:60]}) reported while the session is alive")
         self.streak += 1
         self.streak_ret += 1
         self.streak_succ += 1
@@ -358,8 +363,10 @@ class RecHarness:
         if label == "rl_start":
             w.counter += 1
             w.last_start_seq = w.counter
-            w.stop_issued = False
-            if w.in_session and w.stopped_done_at is not None:
+            was_stopping, w.stop_issued = w.stop_issued, False
+            if was_stopping and (w.in_session or w.live_sock() is not None):
+                # a stop() was issued (it may still be waiting for the handshake to end) and the session or attempt from before it is
+                # still alive: the manager is being restarted over it
                 w.restart_over_live_session = True
             w.start_instants.append(w.loop.time())
             w.rl_started = True
